@@ -12,6 +12,7 @@ PDF_FEATURES = {
     "multi-image-pages": "one image on each of three pages (numbering must run 1..n) (twin: three images on one page)",
     "image-only-page": "a page that has an image but no text (twin: image and a text line)",
     "empty-page": "a page with an empty content stream (twin: one text line)",
+    "shared-content-stream": "stamped / mail-merge layout: every page's /Contents is the same object 'q /Fm0 Do Q' and each page binds /Fm0 to its own form XObject holding that page's text (twin: one such content stream per page)",
 }
 
 
@@ -59,6 +60,7 @@ def make_pdf(pages: list[dict], info: dict | None = None) -> bytes:
     pages_id = w.reserve()
     font = w.add(b"<< /Type /Font /Subtype /Type1 /BaseFont /Helvetica /Encoding /WinAnsiEncoding >>")
     kids = []
+    shared_cid = None
     for pg in pages:
         xobjs = []
         content = bytearray()
@@ -85,7 +87,20 @@ def make_pdf(pages: list[dict], info: dict | None = None) -> bytes:
             xobjs.append((b"Im%d" % k, oid))
             y -= 60
             content += b"q 50 0 0 50 50 %d cm /Im%d Do Q\n" % (max(y, 20), k)
-        cid = w.add(w.stream(b"", bytes(content)))
+        form_id = None
+        if pg.get("as_form"):
+            # the page's drawing operators live in a form XObject; the content stream only invokes it
+            form_id = w.add(w.stream(b"/Type /XObject /Subtype /Form /BBox [0 0 612 792] /Resources << /Font << /F1 %d 0 R >> >>" % font, bytes(content)))
+            if pg["as_form"] == "shared":
+                if shared_cid is None:
+                    shared_cid = w.add(w.stream(b"", b"q /Fm0 Do Q\n"))
+                cid = shared_cid
+            else:
+                cid = w.add(w.stream(b"", b"q /Fm0 Do Q\n"))
+        else:
+            cid = w.add(w.stream(b"", bytes(content)))
+        if form_id:
+            xobjs.append((b"Fm0", form_id))
         res = b"<< /Font << /F1 %d 0 R >>" % font
         if xobjs:
             res += b" /XObject << " + b" ".join(b"/" + n + b" %d 0 R" % o for n, o in xobjs) + b" >>"
@@ -111,7 +126,7 @@ def build_pdf(seed: int, feature: str | None = None, twin: bool = False):
     if feature:
         exp.features.add(feature if not twin else feature + "#twin")
     n_pages = rng.randint(1, 5)
-    if feature in ("multi-image-pages",):
+    if feature in ("multi-image-pages", "shared-content-stream"):
         n_pages = max(3, n_pages)
     if feature in ("image-only-page", "empty-page"):
         n_pages = max(2, n_pages)
@@ -168,7 +183,7 @@ def build_pdf(seed: int, feature: str | None = None, twin: bool = False):
             lines = [exp.text(tk.new("b"), p)] if twin else []
         elif feature is None and rng.random() < 0.4:
             imgs = [img() for _ in range(rng.randint(1, 3))]     # pictures on any pages, picture-free pages in between (numbers run through the document)
-        pages.append({"lines": lines, "images": imgs})
+        pages.append({"lines": lines, "images": imgs, "as_form": ("own" if twin else "shared") if feature == "shared-content-stream" else None})
     exp.n_units = n_pages
     meta = {"Title": exp.ignore(tk.new("t")), "Author": exp.ignore(tk.new("t"))}
     return make_pdf(pages, meta), exp
